@@ -37,6 +37,10 @@ func quoteStr(v string, alt bool) string {
 	if alt && !strings.ContainsAny(v, "`\n\r\t") && isPrintableUTF8(v) {
 		return "`" + v + "`"
 	}
+	if alt && strings.HasPrefix(v, "raw:") && !strings.Contains(v, "`") {
+		// a raw string spanning lines, with tabs and carriage returns: everything between the backquotes is the value
+		return "`" + v + "`"
+	}
 	return strconv.Quote(v)
 }
 
